@@ -928,6 +928,19 @@ binary_e_fns: dict[str, BinaryCallable] = {
     "e": binary_e_fn,
 }
 
+def binary_mod_fn(
+    x: Union[int, float], y: Union[int, float]
+) -> Union[int, float, str]:
+    # https://www.mediawiki.org/wiki/Help:Extension:ParserFunctions##expr
+    # "remainder of division after truncating both operands to an integer";
+    # the result has the sign of the dividend (-8 mod 3 = -2, 8 mod 2.7 = 0)
+    x = math.trunc(x)
+    y = math.trunc(y)
+    if y == 0:
+        return "Divide by zero"
+    return int(math.fmod(x, y))
+
+
 binary_pow_fns: dict[str, BinaryCallable] = {
     "^": math.pow,
 }
@@ -936,7 +949,7 @@ binary_mul_fns: dict[str, BinaryCallable] = {
     "*": lambda x, y: x * y,
     "/": lambda x, y: "Divide by zero" if y == 0 else x / y,
     "div": lambda x, y: "Divide by zero" if y == 0 else x / y,
-    "mod": lambda x, y: "Divide by zero" if y == 0 else x % y,
+    "mod": lambda x, y: binary_mod_fn(x, y),
 }
 
 binary_add_fns: dict[str, BinaryCallable] = {
